@@ -53,6 +53,8 @@ type machine struct {
 	baseDefs []any
 	probes   []val.V
 	initial  []probeOutcome // what each probe gave on this very instance before the history started
+	natives  []any          // native probes: the probes' results, and copies with one leaf spoiled / one member absent
+	natInit  []nativeOutcome
 	last     any            // last successful Unserialize result (a native value)
 }
 
@@ -68,6 +70,47 @@ func probe(sch schema.Type, p val.V) probeOutcome {
 	o.panicked = oracle.Safely(func() { o.res, err = sch.Unserialize(p.Go()) }) != nil
 	o.err = err != nil
 	return o
+}
+
+// nativeOutcome is what Validate and Serialize make of a native probe.
+type nativeOutcome struct {
+	vErr, vPanic, sErr, sPanic bool
+	ser                        any
+}
+
+func probeNative(sch schema.Type, x any) nativeOutcome {
+	var o nativeOutcome
+	var err error
+	o.vPanic = oracle.Safely(func() { err = sch.Validate(val.DeepCopy(x)) }) != nil
+	o.vErr = err != nil
+	err = nil
+	o.sPanic = oracle.Safely(func() { o.ser, err = sch.Serialize(val.DeepCopy(x)) }) != nil
+	o.sErr = err != nil
+	return o
+}
+
+func (a nativeOutcome) differs(b nativeOutcome) bool {
+	return a.vErr != b.vErr || a.vPanic != b.vPanic || a.sErr != b.sErr || a.sPanic != b.sPanic || (!a.sErr && !a.sPanic && !val.Equal(a.ser, b.ser, val.Opts{}))
+}
+
+// nativeProbes derives native probes from a successful result: the result itself, then alternately a copy with one
+// leaf spoiled (rejected deep inside, by the leaf's own type) and a copy with one member made absent (judged by the
+// presence rules), so that calls rejected for different reasons and accepted calls follow each other.
+func nativeProbes(res any) []any {
+	out := []any{res}
+	_, ns := val.Spoil(res, 0)
+	_, nb := val.Blank(res, 0)
+	for k := 0; k < 4; k++ {
+		if k < ns {
+			x, _ := val.Spoil(res, k*7)
+			out = append(out, x)
+		}
+		if k < nb {
+			x, _ := val.Blank(res, k*5)
+			out = append(out, x)
+		}
+	}
+	return append(out, res)
 }
 
 func objectsOf(t schema.Type) []*schema.ObjectSchema {
@@ -175,7 +218,14 @@ func newMachine(s *spec.Spec, probes []val.V) (*machine, error) {
 	m.baseDesc = describe(sch)
 	m.baseDefs = defaultsOf(sch)
 	for _, p := range probes {
-		m.initial = append(m.initial, probe(sch, p))
+		o := probe(sch, p)
+		m.initial = append(m.initial, o)
+		if !o.err && !o.panicked && o.res != nil && len(m.natives) < 40 {
+			m.natives = append(m.natives, nativeProbes(o.res)...)
+		}
+	}
+	for _, x := range m.natives {
+		m.natInit = append(m.natInit, probeNative(sch, x))
 	}
 	return m, nil
 }
@@ -345,6 +395,12 @@ func (m *machine) invariant() string {
 	}
 	if d := defaultsOf(m.sch); !val.Equal(d, m.baseDefs, val.Opts{}) {
 		return fmt.Sprintf("GetDefaults() of the schema's objects changed:\n before: %#v\n after:  %#v", m.baseDefs, d)
+	}
+	for i, x := range m.natives {
+		// the same for native values: Validate / Serialize of a value must still say what they said before the history
+		if now, was := probeNative(m.sch, x), m.natInit[i]; now.differs(was) {
+			return fmt.Sprintf("Validate / Serialize of %#v changed their answer in the course of this history:\n before: validate err=%v panic=%v, serialize (%#v, err=%v, panic=%v)\n now:    validate err=%v panic=%v, serialize (%#v, err=%v, panic=%v)", x, was.vErr, was.vPanic, was.ser, was.sErr, was.sPanic, now.vErr, now.vPanic, now.ser, now.sErr, now.sPanic)
+		}
 	}
 	fresh, err := spec.Build(m.s)
 	if err != nil {
@@ -570,14 +626,7 @@ func TestPurity(t *testing.T) {
 		}
 		h.Probes = append(h.Probes, val.V{T: "map[string]any"}, gen.Hostile(1).Draw(rt, "probeHostile"))
 		sawErr, sawDefaultFill, bigMap := false, false, false
-		recursive := false
-		spec.Walk(s, func(n *spec.Spec) {
-			for _, p := range n.Props {
-				if p.Type.Kind == spec.KRef && p.Type.RefID == n.ID {
-					recursive = true
-				}
-			}
-		})
+		recursive := gen.IsRecursive(s)
 		nSteps := rapid.IntRange(1, 10).Draw(rt, "nSteps")
 		for i := 0; i < nSteps; i++ {
 			st := Step{}
